@@ -424,6 +424,13 @@ func init() {
 			return 600
 		},
 		Run: func(t *testing.T, rng *rand.Rand, rec *sim.Rec, tier string, caseNo int) {
+			if caseNo%40 == 19 {
+				// the client's other parser of untrusted bytes: the ConnectionBind reply read
+				// off a fresh data connection (same routine as C10 uses, hostile lengths only)
+				runC10Bind(t, rng, rec, tier, 3+4*(caseNo/40))
+
+				return
+			}
 			if caseNo%4 == 3 {
 				runC09Client(t, rng, rec, tier, caseNo/4)
 
